@@ -13,13 +13,15 @@
    - [catch_up]: a validly signed new-view message of a committee member whose justification
      verifies and is for a higher view moves the replica to that view (and makes it re-broadcast
      a new-view), unless save_block would wait for a gap in the block store.
+   - the invariant and the enabled timer lifted to every reachable state of the cluster model
+     Model/Sim.v (Proofs/SimLive.v).
    The GLOBAL statement (every up honest node commits a new block within a bounded number of
    synchronous rounds after any adversarial prefix) is [C06_full] over the cluster model
    Model/Sim.v; it is stated, not proved: it is MONITORED on the implementation and on the model
    by the cluster correspondence (gen/c06.py). *)
 From Coq Require Import ZArith List Bool.
 From EC Require Import Lib.Outcome Lib.U64 Lib.ListW Lib.Obs Model.Msgs Model.Replica Model.ReplicaRun
-  Model.Sim Proofs.ReplicaLive.
+  Model.Sim Proofs.ReplicaLive Proofs.SimLive.
 Import ListNotations.
 Open Scope Z_scope.
 
@@ -79,6 +81,21 @@ Theorem C06_reachable_timer_enabled : forall cfg first next ops,
     snd (rstep cfg (rs_s st) ITimer) = Ok tt.
 Proof. exact reachable_timer_enabled. Qed.
 Print Assumptions C06_reachable_timer_enabled.
+
+(* the same over the cluster model: in every state the cluster (Model/Sim.v) reaches through any
+   schedule (deliveries in any order with loss and duplication, partitions, Byzantine messages of
+   any content, crashes at any persist point, restarts, stops, block sync, rounds) every node
+   satisfies the invariant and its timer step succeeds and keeps the view *)
+Theorem C06_cluster_invariant : forall c, sim_ok (sim_final c).
+Proof. exact sim_reachable_ok. Qed.
+Print Assumptions C06_cluster_invariant.
+
+Theorem C06_cluster_timer_always_enabled : forall c k nd,
+  nth_error (s_nodes (sim_final c)) k = Some nd ->
+  snd (rstep (sn_cfg nd) (rs_s (sn_rs nd)) ITimer) = Ok tt /\
+  r_view (fst (fst (rstep (sn_cfg nd) (rs_s (sn_rs nd)) ITimer))) = r_view (rs_s (sn_rs nd)).
+Proof. exact sim_timer_always_enabled. Qed.
+Print Assumptions C06_cluster_timer_always_enabled.
 
 (* ---------- lagging replicas catch up ---------- *)
 Theorem C06_catch_up : forall cfg s key j mv,
